@@ -303,7 +303,12 @@ def inline_stage(rng, cols=None, after_agg=False):
     if r < 0.84:
         return ('total', num_expr(rng, 1, cols or NUM_COLS), rng.choice([None, 'run']))
     if r < 0.90:
-        return ('split', rng.choice([None, ' ', 'a', ', ']), col_ref(rng, ['s', 't', 'k']), rng.choice([None, col('parts')]))
+        out = rng.choice([None, col('parts'), col('parts')])
+        if cols is None and rng.random() < 0.3:
+            # a path into an existing container as the target: in range, negative, and out of range either way
+            out = rng.choice([col('arr', ('ix', rng.choice([0, 1, -1, 2, 3, -2, -4, -5, 4, 7, 99]))), col('obj', ('k', rng.choice(['p', 'q', 'zz']))),
+                              col('obj', ('k', 'q'), ('ix', rng.choice([0, -1, 1, 5, -3]))), col('nope', ('k', 'x'))])
+        return ('split', rng.choice([None, ' ', 'a', ', ']), col_ref(rng, ['s', 't', 'k']), out)
     if r < 0.95 and cols is None:
         # timestamps come in any order: the slice of a row depends on that row alone
         return ('timeslice', DATE_EXPR, rng.choice([60, 300, 3600, 86400]) * 10**9, rng.choice([None, 'slice']))
